@@ -441,7 +441,7 @@ fn run_connect_world(p: &Plan, ctx: &RunCtx) -> bodyx::Ran<Obs> {
         })),
     );
     let out = sim.run(|| caller(p));
-    bodyx::Ran { observed: out.result, history: out.history, sched_tape: out.sched_tape, seen: Default::default() }
+    bodyx::Ran { observed: out.result, history: out.history, sched_tape: out.sched_tape, seen: Default::default(), plain_out: Vec::new() }
 }
 
 pub fn scenario(g: &mut G, ctx: &RunCtx) -> RunReport {
